@@ -40,8 +40,11 @@ def s_arclength(tier):
                                                                "frac"]),
                                                st.integers(0, 20), st.floats(0, 1),
                                                st.sampled_from([1e-12, -1e-12, 1e-9, -1e-9, 1e-6])),
-                                    min_size=1, max_size=6), st.integers(0, 11)).map(
-        lambda t: {"ll": strip(t[0]), "q": t[1], "drawn": t[2] == 0})
+                                    min_size=1, max_size=6), st.integers(0, 11),
+                     st.one_of(st.none(), st.none(), st.none(), st.lists(st.floats(-5, 5), min_size=2, max_size=12)),
+                     st.one_of(st.none(), st.none(), st.tuples(st.tuples(st.floats(-50, 50), st.floats(-50, 50)).map(list),
+                                                               st.floats(-6.28, 6.28)).map(list))).map(
+        lambda t: {"ll": strip(t[0]), "q": t[1], "drawn": t[2] == 0, "z": t[3], "motion": t[4]})
 
 
 def strip(ll):
@@ -68,10 +71,19 @@ def straighten(ll):
     return dict(ll, center=cen, left=left, right=right)
 
 
+def ndist(p, q):
+    """Euclidean distance of two points of any (equal) dimension."""
+    return math.sqrt(sum((float(a) - float(b)) ** 2 for a, b in zip(p, q)))
+
+
+def lerp(p, q, t):
+    return [float(a) + t * (float(b) - float(a)) for a, b in zip(p, q)]
+
+
 def cumdist(c):
     d = [0.0]
     for i in range(1, len(c)):
-        d.append(d[-1] + geom.dist(c[i - 1], c[i]))
+        d.append(d[-1] + ndist(c[i - 1], c[i]))
     return d
 
 
@@ -79,10 +91,24 @@ def check_arclength(r, ctx):
     ll = r["ll"]
     c = ll["center"]
     for i in range(1, len(c)):
-        if geom.dist(c[i - 1], c[i]) < 1e-6:
+        if ndist(c[i - 1], c[i]) < 1e-6:
             ctx.discard("coincident-vertices")
+    if r.get("z"):
+        # polylines may carry a z coordinate (documented: convert_to_2d exists for them); arc length is the 3D length
+        zs = [r["z"][i % len(r["z"])] for i in range(len(c))]
+        ll = {k: [[p[0], p[1], z] for p, z in zip(ll[k], zs)] for k in ("left", "center", "right")}
+        c = ll["center"]
+        ctx.label("3d-polylines")
     lan = make_lanelet(ll)
-    if r.get("drawn"):
+    if r.get("motion") and not r.get("z"):
+        # the lanelet has been used (its geometry is memoised) and is then moved: it is the lanelet of the moved lines
+        t, a = r["motion"]
+        lan.distance, lan.inner_distance, lan.polygon
+        lan.interpolate_position(float(lan.distance[-1]) / 2)
+        lan.translate_rotate(np.array(t, dtype=float), a)
+        ll = {k: [geom.rigid(p, t, a) for p in ll[k]] for k in ("left", "center", "right")}
+        ctx.label("moved-after-use")
+    if r.get("drawn") and not r.get("z"):
         lan = draw_behind_a_light(lan, ll)
         ctx.label("drawn-before-queries")
     if validate_arclength(lan, ll, r["q"], ctx):
@@ -163,17 +189,16 @@ def validate_arclength(lan, ll, queries, ctx, tag=""):
             j += 1
         seg = ref[j + 1] - ref[j]
         t = (s - ref[j]) / seg
-        exp_c = [c[j][0] + t * (c[j + 1][0] - c[j][0]), c[j][1] + t * (c[j + 1][1] - c[j][1])]
-        if geom.dist(exp_c, pc) > tol:
+        exp_c = lerp(c[j], c[j + 1], t)
+        if ndist(exp_c, pc) > tol:
             raise Violation(tag + "centre-point", "s=%r: got %r expected %r" % (s, list(pc), exp_c))
         # right / left at the same parameter of the segment the library reports
         tt = (s - ref[idx]) / (ref[idx + 1] - ref[idx])
         for name, got, line in (("right", pr, ll["right"]), ("left", pl, ll["left"])):
-            exp = [line[idx][0] + tt * (line[idx + 1][0] - line[idx][0]),
-                   line[idx][1] + tt * (line[idx + 1][1] - line[idx][1])]
+            exp = lerp(line[idx], line[idx + 1], tt)
             # the parameter is only determined up to tol/segment length
-            slack = tol + abs(tol / (ref[idx + 1] - ref[idx])) * geom.dist(line[idx], line[idx + 1])
-            if geom.dist(exp, got) > slack:
+            slack = tol + abs(tol / (ref[idx + 1] - ref[idx])) * ndist(line[idx], line[idx + 1])
+            if ndist(exp, got) > slack:
                 raise Violation(tag + "%s-point" % name, "s=%r idx=%d: got %r expected %r" % (s, idx, list(got), exp))
         ctx.label(tag + "s-" + kind)
         if kind in ("zero", "full", "vertex", "near-vertex"):
